@@ -399,8 +399,9 @@ fn do_resolve<Fd: AsFd, P: AsRef<Path>>(
                     // applies fs.protected_symlinks to trailing symlinks (see
                     // pick_link() -- may_follow_link() is only called for
                     // WALK_TRAILING), which includes the final component of a
-                    // symlink target we have just expanded.
-                    if remaining_components.is_empty() {
+                    // symlink target we have just expanded. A link that is only
+                    // followed by slashes ("link/") is still trailing.
+                    if remaining_components.iter().all(|part| part.is_empty()) {
                         // MSRV(1.69): Remove &*.
                         may_follow_link(&*current, &next).with_wrap(|| {
                             format!(
